@@ -14,7 +14,7 @@ PROPS = {
     'C03': {'units': ['opt', 'fuse'], 'kani': K_ANALYSIS},
     'C19': {'units': ['run19'], 'kani': K_CONTEXT},
     'C20': {'units': ['gad', 'fri', 'periodic'], 'kani': [], 'only': {'fri': r'evaluate_polynomial|circuit_exp_by_constant|lemma_'}},
-    'C07': {'units': ['fri', 'shape', 'fold'], 'kani': [], 'only': {'shape': r'verify_fri_circuit'}, 'exclude': r'possible (bit shift|arithmetic)'},
+    'C07': {'units': ['fri', 'shape', 'fold', 'openin'], 'kani': [], 'only': {'shape': r'verify_fri_circuit'}, 'exclude': r'possible (bit shift|arithmetic)'},
     'C05': {'units': ['chal'], 'kani': [], 'exclude': r'canonical_width'},
     'C06': {'units': ['bind'], 'kani': []},
     'C17': {'units': ['cache'], 'kani': []},
@@ -22,7 +22,7 @@ PROPS = {
     'C18': {'units': ['dsu'], 'kani': []},
     'C14': {'units': ['pack'], 'kani': []},
     'C12': {'units': ['bits', 'chal'], 'kani': [], 'only': {'chal': r'canonical_width'}},
-    'C15': {'units': ['shape'], 'kani': []},
+    'C15': {'units': ['shape', 'openin'], 'kani': [], 'only': {'openin': r'per_matrix_shape_and_grouping|compute_single_reduced_opening|height_group'}},
     'C13': {'units': ['sym', 'symx'], 'kani': []},
     'C09': {'units': ['prep'], 'kani': []},
     'C08': {'units': ['mmcs', 'hash', 'mbind'], 'kani': []},
@@ -102,7 +102,9 @@ META['C15'] = {
             '(every list length, every chunk width, the ZK random opening) and otherwise Err(InvalidProofShape); the validation prefix of verify_fri_circuit returns Ok only '
             'with every length the fold/query code later indexes with (per-query opening counts, per-phase log_arity and sibling-coefficient counts, index-bit widths, final '
             'polynomial length), and no index, subtraction or slice in it can panic for ANY list lengths; CommitPhaseProofStepTargets::new is checked with an arbitrary proof-supplied byte. '
-            'The shift/multiply obligations on proof-supplied widths fail and are the recorded finding C15-shift-widths.',
+            'The shift/multiply obligations on proof-supplied widths fail and are the recorded finding C15-shift-widths. '
+            'Unit openin: the per-matrix loop of open_input returns Ok if and only if there is one opened row per matrix and EVERY opening point of EVERY matrix lists exactly one value per opened column '
+            '(which is the indexing precondition of compute_single_reduced_opening and of the single-chain path, both discharged at their call sites).',
     'note': 'Kernel: validate_proof_shape (stark.rs), validation prefix of verify_fri_circuit (R13 prefix extraction), CommitPhaseProofStepTargets::new. Not yet under contract: '
             'the per-instance loop of verify_batch_circuit (its unchecked lookup_terminals index was found by reading and fixed: F3), MMCS cap/path split, panics inside p3 dependencies. '
             'Assumed: 64-bit usize, log_arities entries originate from a u8, realistic proof sizes (< 2^32 phases, extension degree < 2^16). Error message strings dropped.',
@@ -152,8 +154,10 @@ META['C07'] = {
             'boolean bits, arity2_fold_at_point is the native arity-2 fold e0 + (beta - x0)(e1 - e0)(-1/2)/x0, evaluate_polynomial is Horner evaluation of the final polynomial for every length, '
             'circuit_exp_by_constant is x^n for every n > 0 (square-and-multiply invariant with bit-vector lemmas), reconstruct_evals rebuilds the native evaluation row for every arity (the folded value at the '
             'little-endian index of the boolean index bits, the siblings in order around it: closed forms for arity 1/2/4/8 and the generic one-hot + cumulative-sum path); and the validation prefix of verify_fri_circuit returns Ok only with every length '
-            'fact the fold/query wiring indexes with.',
-    'note': 'GADGET KERNEL ONLY. Not under contract: one_hot_from_four_bits / one_hot_from_bits (generic arity; assumed callee of reconstruct_evals), fold_chain_circuit wiring, open_input height grouping (a seeded change there — unified-z fast path keyed on the first matrix — is NOT detected: BTreeMap/closure code outside the normaliser), '
+            'fact the fold/query wiring indexes with. Unit openin: compute_single_reduced_opening is one native (matrix, point) step (alpha_pow * Horner(p(z) - p(x)) / (z - x), alpha power advanced by the width); '
+            'the body of open_input\'s loop over height groups leaves for its height exactly the native fold over (matrix, point) pairs — on the per-matrix path step by step, on the single-Horner-chain fast path '
+            'through lemma_unified_chain (the chain equals the fold when every matrix shares the one opening point, proved from the ring laws); the grouping loop files each matrix under its height in order.',
+    'note': 'GADGET KERNEL ONLY. Not under contract: one_hot_from_four_bits / one_hot_from_bits (generic arity; assumed callee of reconstruct_evals), fold_chain_circuit wiring, the MMCS part and the final list of open_input (a seeded change there — unified-z fast path keyed on the first matrix — is NOT detected: BTreeMap/closure code outside the normaliser), '
             'Unit fold: fold_one_phase (arity-2 fast path, unrolled arity 4 and 8, general in-place loop, roll-in) equals the native fold tree of the reconstructed row at the points ss^(2^s) * twiddle, '
             'challenge beta^(2^s), under the precondition that the evaluation points are non-zero; compute_subgroup_points returns ss * omega^br(i). '
             'proof-of-work, Merkle openings (C08), and the iff with the native verifier. Builder arithmetic contracts are assumed; -1/2 and bit_length are abstracted constants/stubs.',
